@@ -12,22 +12,23 @@ import json
 import sys
 from fractions import Fraction
 
-from harness.core import VERIF, Ctx, cbool, clist, cnat, cq, guarded
+import math
+
+from harness.core import VERIF, Ctx, clist, cnat, copt, cq, guarded
 
 ID = "C15"
 ANCHORS = ["solvor/articulation.py", "solvor/kcore.py", "solvor/pagerank.py", "solvor/community.py"]
-KF_ARTIC = "C15-artic-one-way-arcs"
 EPS = Fraction(1, 10**9)
 DAMPINGS = [(17, 20), (1, 2), (3, 4), (9, 10), (1, 10), (1, 4), (19, 20), (99, 100), (1, 100), (2, 3)]
 TOLS = [5e-2, 1e-2, 1e-3, 1e-4, 1e-6, 1e-8]
-MAX_ITERS = [1, 2, 3, 5, 10, 25, 100]
+MAX_ITERS = [0, 1, 2, 3, 5, 10, 10, 25, 25, 100, 100]
 COQ_PR_MAX_IT = 24  # longer runs are judged by the Python oracles only (Q numerators grow with every iteration)
 
 
 # ---------------------------------------------------------------- generators
 def gen_graph(rng, big=False):
     """(nodes, nb): nodes = distinct int labels in random order; nb[v] = list(neighbors(v))."""
-    n = rng.choice([0, 1, 2, 2, 3, 3, 4, 4, 4, 5, 5, 5, 6, 6, 6, 7, 7, 8] + ([9, 10, 12] if big else []))
+    n = rng.choice([0, 1, 2, 3, 3, 4, 4, 4, 5, 5, 5, 5, 6, 6, 6, 6, 7, 7, 7, 8, 8] + ([9, 10, 12] if big else []))
     labels = rng.sample(range(n + 3), n)
     shape = rng.choice(["sparse", "sparse", "dense", "tree", "cycle_tails", "cliques", "components"])
     und = set()
@@ -190,42 +191,6 @@ def ref_modularity(nodes, nb, res, comms):
         cs = set(c)
         q += Fraction(sum(1 for e in E if e <= cs)) / m - Fraction(res) * (Fraction(sum(deg[v] for v in cs)) / (2 * m)) ** 2
     return q
-
-
-def old_one_way(nodes, nb):
-    """What the UNREPAIRED articulation.py computes (arcs followed one way) - used only to attribute a failure to
-    the open known finding (same observable as the pinned defect)."""
-    ns = set(nodes)
-    disc, low, parent, ap, br, t = {}, {}, {}, set(), [], [0]
-
-    def dfs(v):
-        ch = 0
-        disc[v] = low[v] = t[0]
-        t[0] += 1
-        for w in nb[v]:
-            if w not in ns:
-                continue
-            if w not in disc:
-                ch += 1
-                parent[w] = v
-                dfs(w)
-                low[v] = min(low[v], low[w])
-                if parent[v] is None:
-                    if ch >= 2:
-                        ap.add(v)
-                elif low[w] >= disc[v]:
-                    ap.add(v)
-                if low[w] > disc[v]:
-                    br.append((min(v, w), max(v, w)))
-            elif w != parent[v]:
-                low[v] = min(low[v], disc[w])
-
-    if len(nodes) > 1:
-        for v in nodes:
-            if v not in disc:
-                parent[v] = None
-                dfs(v)
-    return sorted(ap), sorted(br)
 
 
 def is_asymmetric(nodes, nb):
@@ -450,21 +415,13 @@ def one_case(ctx, case, acc, judge_only=False):
     # ---- articulation points / bridges
     oa = call("ap", run_ap, nodes, nb)
     ob = call("br", run_br, nodes, nb)
-    known_entry = next((f for f in ctx.open_findings() if f.get("id") == KF_ARTIC), None)
-    artic_known = False
     for kind, o, judge in (("ap", oa, judge_ap), ("br", ob, judge_br)):
         if o is None:
             continue
         v = judge(nodes, nb, o)
         if v:
-            old = old_one_way(nodes, nb)
-            same_as_pinned = (o["solution"] == old[0]) if kind == "ap" else (sorted(o["solution"]) == old[1])
-            if known_entry and asym and same_as_pinned:
-                ctx.known_hit(KF_ARTIC, f"{kind} on asymmetric neighbour lists follows arcs one way: {v}")
-                artic_known = True
-            else:
-                bad.append((v, {**base, "kind": kind, "impl": o}))
-    if oa is not None and ob is not None and not judge_only and not artic_known:
+            bad.append((v, {**base, "kind": kind, "impl": o}))
+    if oa is not None and ob is not None and not judge_only:
         if all(_int(x) for x in (oa["objective"], oa["iterations"], oa["evaluations"], ob["objective"], ob["iterations"], ob["evaluations"])):
             acc["ap"].append((f"({G}, ({clist(oa['solution'])}, {oa['objective']}, {oa['iterations']}, {oa['evaluations']}))", case, oa))
             acc["br"].append((f"({G}, ({cpairs(ob['solution'])}, {ob['objective']}, {ob['iterations']}, {ob['evaluations']}))", case, ob))
@@ -508,7 +465,7 @@ def one_case(ctx, case, acc, judge_only=False):
                 st = "P_OPTIMAL" if op["status"] == "OPTIMAL" else "P_MAX_ITER"
                 mode = "false" if near else "true"
                 ctx.count("pr_coq", "threshold_too_close_iterate_only" if near else "strict")
-                acc["pr"].append((f"({G}, (({cq(d)}, {cq(ft)}, {cnat(max_iter)}), ({mode}, ({sc}, {cq(Fraction(op['objective']))}, {cnat(it)}, {st}), {bound})))", case, op))
+                acc["pr"].append((f"({G}, (({cq(d)}, {cq(ft)}, {cnat(max_iter)}), ({mode}, ({sc}, {copt(None if math.isinf(op['objective']) else Fraction(op['objective']), cq)}, {cnat(it)}, {st}), {bound})))", case, op))
 
     # ---- louvain
     ol = call("lv", run_lv, nodes, nb, res)
@@ -545,7 +502,7 @@ CHECKS = {
            "&& (k_iterations r =? it) && (k_evaluations r =? ev) end && kcore_check g sol && "
            "forallb (fun kq => let '(k, (s, o, i, e)) := kq in kcore_set_check sol k s && "
            "match kcore pick_first g k with Some (s', o', i', e') => set_eqb s' s && (o' =? o) && (i' =? i) && (e' =? e) | None => false end) (snd (snd c))"),
-    "pr": ("graph * ((Q * Q * nat) * (bool * (list (nat * Q) * Q * nat * pstatus) * Q))", "pr_case"),
+    "pr": ("graph * ((Q * Q * nat) * (bool * (list (nat * Q) * option Q * nat * pstatus) * Q))", "pr_case"),
     "lv": ("graph * (Q * list (list nat) * (list (list nat) * Q * nat * nat))",
            "fun c => let g := fst c in let '(res, passes, o) := snd c in let '(cs, obj, it, ev) := o in "
            "lv_corr (1 # 1000000000) g res passes o && lv_spec_check (1 # 1000000000) g res cs obj"),
@@ -596,17 +553,11 @@ def run(ctx: Ctx):
         "the independent check is lv_spec_check / the Python reference on the implementation's partition",
         "kcore: buckets[k].pop() order is not observable; the model pops the first element; compared observable (core numbers) is "
         "pick-independent by theorem C15_kcore",
-        "articulation/bridges model = repaired behaviour (symmetrised adjacency); results compared as sets",
-        "node lists without repeated nodes, integer labels (bridges orders endpoints with <), max_iter >= 1 (max_iter = 0 raises UnboundLocalError)",
+        "articulation/bridges: model follows _undirected_adjacency insertion order; results compared as sets (the property leaves the order free)",
+        "node lists without repeated nodes, integer labels (bridges orders endpoints with <)",
     ]
-    # open known findings: replay witnesses
-    for f in ctx.open_findings():
-        if f.get("id") == KF_ARTIC:
-            o = guarded(run_ap, [0, 1, 2], {0: [], 1: [0, 2], 2: []})
-            if o[0] == "ok" and o[1]["solution"] == []:
-                ctx.known_hit(KF_ARTIC, "articulation_points([0,1,2], {0:[],1:[0,2],2:[]}) returns no cut vertex (vertex 1 expected)")
     big = ctx.tier == "thorough"
-    cases = all_cases(ctx, ctx.budget(260, 5000), big)
+    cases = all_cases(ctx, ctx.budget(400, 5000), big)
     acc = {k: [] for k in CHECKS}
     for case in cases:
         for what, rep in one_case(ctx, case, acc):
